@@ -39,7 +39,7 @@ func (c11) Cases(tier string) int {
 func (c11) Describe() core.Info {
 	return core.Info{
 		Level: "exploration",
-		Rule: "declared programs written as source text: an extensional predicate q declared with one or two bound rows drawn from the type-expression generator (base types, name-prefix types incl. prefix-of-a-prefix names /foo vs /foobar, singletons, unions, pairs, lists, maps, structs with optional fields, tagged unions; function and dot syntax) with base facts that are members by construction and near-misses (sibling prefix, wrong shape, extra struct field); an intensional predicate p declared with a related bound (same, widened, narrowed, mutated) and one rule that copies, projects, constructs (fn:pair, list, map, struct) or destructures (:match_pair, :list:member, :match_field, :match_entry) values. Programs are submitted to AnalyzeAndCheckBounds(ErrorForBoundsMismatch); every accepted program is evaluated and every stored fact of a user-declared predicate is judged by the library's own run-time check (builtin.TypeChecker.CheckTypeBounds). Non-trivial: program accepted and the declared intensional predicate has a derived fact; distinct by program text.",
+		Rule: "declared programs written as source text: an extensional predicate q declared with one or two bound rows drawn from the type-expression generator (base types, name-prefix types incl. prefix-of-a-prefix names /foo vs /foobar, singletons, unions, pairs, lists, maps, structs with optional fields, tagged unions; function and dot syntax) with base facts that are members by construction and near-misses (sibling prefix, wrong shape, extra struct field); an intensional predicate p declared with a related bound (same, widened, narrowed, mutated) and one rule that copies, projects, constructs (fn:pair, list, map, struct) or destructures (:match_pair, :list:member, :match_field, :match_entry) values, or joins q (two bound rows) with a wider predicate src on the same variable in either premise order. Programs are submitted to AnalyzeAndCheckBounds(ErrorForBoundsMismatch); every accepted program is evaluated and every stored fact of a user-declared predicate is judged by the library's own run-time check (builtin.TypeChecker.CheckTypeBounds). Non-trivial: program accepted and the declared intensional predicate has a derived fact; distinct by program text.",
 		Assumptions: []string{"the run-time judgement is the library's own, as the property states", "rejected programs are not judged"},
 	}
 }
@@ -135,7 +135,7 @@ func (c11) Gen(r *rand.Rand, tier string, i int) any {
 	if !c12WellFormed(pt) || strings.Contains(fmt.Sprint(pt), "fn:Option") {
 		pt = t
 	}
-	shapes := []string{"copy", "pair", "list", "struct", "map", "member", "match-pair", "match-field", "copy-second-row", "cons"}
+	shapes := []string{"copy", "pair", "list", "struct", "map", "member", "match-pair", "match-field", "copy-second-row", "cons", "join", "join-rev", "join-two-rows"}
 	shape := shapes[r.Intn(len(shapes))]
 	ptText := c11TypeText(pt, syntax)
 	wrap := func(ctor string, args ...string) string {
@@ -148,6 +148,43 @@ func (c11) Gen(r *rand.Rand, tier string, i int) any {
 	switch shape {
 	case "copy", "copy-second-row":
 		fmt.Fprintf(&sb, "Decl p(X) bound [%s].\np(X) :- q(X).\n", ptText)
+	case "join", "join-rev", "join-two-rows":
+		// X is bound by a wider predicate and narrowed by q, which has several bound rows: the inferred
+		// type of X is the union of the rows, whichever premise comes first.
+		sb.Reset()
+		var t2 gen.TermV
+		for {
+			t2 = gen.RandTypeV(r, 1)
+			if c12WellFormed(t2) && !strings.Contains(fmt.Sprint(t2), "fn:Option") {
+				break
+			}
+		}
+		jrows := []gen.TermV{t, t2}
+		if r.Intn(2) == 0 {
+			jrows = []gen.TermV{t2, t}
+		}
+		var jvals []gen.Val
+		for _, row := range jrows {
+			c12Members(r, row, 0, &jvals)
+		}
+		wide := "/any"
+		if shape == "join-two-rows" {
+			wide = c11TypeText(gen.FnT("fn:Union", t, t2), syntax)
+		}
+		fmt.Fprintf(&sb, "Decl src(X) bound [%s].\nDecl q(X) bound [%s] bound [%s].\n", wide, c11TypeText(jrows[0], syntax), c11TypeText(jrows[1], syntax))
+		for k := 0; k < 4 && len(jvals) > 0; k++ {
+			v := jvals[r.Intn(len(jvals))]
+			func() {
+				defer func() { recover() }()
+				cs := v.Const().String()
+				sb.WriteString("q(" + cs + ").\nsrc(" + cs + ").\n")
+			}()
+		}
+		if shape == "join-rev" {
+			fmt.Fprintf(&sb, "Decl p(X) bound [%s].\np(X) :- q(X), src(X).\n", ptText)
+		} else {
+			fmt.Fprintf(&sb, "Decl p(X) bound [%s].\np(X) :- src(X), q(X).\n", ptText)
+		}
 	case "pair":
 		fmt.Fprintf(&sb, "Decl p(X) bound [%s].\np(P) :- q(X), P = fn:pair(X, X).\n", wrap("Pair", ptText, ptText))
 	case "list":
